@@ -17,7 +17,7 @@ OUTCOMES = ["pass", "fail", "raise", "pending", "undefined", "skip", "interrupt"
 PHRASE = {
     "pass": "passes", "fail": "fails", "raise": "raises", "pending": "pends",
     "undefined": "lacks", "skip": "skips", "interrupt": "interrupts",
-    "convert": "misconverts 12x", "act": "acts",
+    "convert": "misconverts 12x", "act": "acts", "nest": "nests",
 }
 STEP_TYPES = ("given", "when", "then")
 KW_TYPE = {"Given": "given", "When": "when", "Then": "then"}
